@@ -531,6 +531,9 @@ def catalog(thorough):
     add(get(UEnum, "u16", [("unit", []), ("tuple", [Vec(U8, U8)])], 0, True))
     add(get(UEnum, "u32", [("unit", []), ("tuple", [LE16, Str(U8)])], 0, True))
     add(Flex(Vec(U32, U8), U8)); add(Flex(Vec(U16, U8), U8))
+    # vectors whose CONSTRAINED elements are more aligned than the length field is wide (padding between the
+    # length and the first element: a validator must look at the elements where the accessors find them)
+    add(Vec(get(SStruct, [U32, BOOL]), U16)); add(Vec(Q_u32, U8)); add(Vec(get(SStruct, [U64, K3]), U8)); add(get(UStruct, [U8, Vec(Q_u32, U16)]))
     # a tail vector of composite elements whose SIZE is not a multiple of the struct's ALIGN (the struct's extent
     # is the rounded-up extent of its tail)
     add(get(UStruct, [U64, Vec(Arr(U32, 2), U32)])); add(get(UStruct, [U32, Vec(Arr(U8, 3), U8)])); add(get(UStruct, [U64, Vec(P_u8u32, U16)]))
